@@ -6,7 +6,7 @@ _REAL = ["engine shard (WriteRows, ForceFlush, WAL, memtable, replay)",
 _STUB = ["meta service (not needed at shard level)", "SQL layer (statements parsed by the real parser; reader ops hand-written as in the repo's own tests)", "network"]
 
 WORLDS = {
-    "S": {"pkg": "engine", "harness": "engine", "test": "TestVerifWorldS", "cpu": 2, "real": _REAL, "stub": _STUB,
+    "S": {"pkg": "engine", "harness": "engine", "test": "TestVerifWorldS", "cpu": 2, "harness_files": ["s_*.go"], "real": _REAL, "stub": _STUB,
           "extra_overlay": {"engine/immutable/zz_verif_dbg.go": "hooks/immutable_dbg.go"}},
 }
 
@@ -48,5 +48,32 @@ PROPS = {
         "assumptions": _CRASH_ASSUME,
         "quick": {"runs": 700, "budget_s": 150, "workers": 14},
         "thorough": {"runs": 3000, "budget_s": 2400, "workers": 16},
+    },
+    "C07": {
+        "world": "S", "level": "fault_enumeration",
+        "rule": "Claimed clauses of C07 only (storage path and torn log records; block-level codec fuzzing is not claimed). Values come from a codec-boundary "
+                "generator (per column: constant, constant-delta, small deltas, extremes, random bits; NaN payloads, +-Inf, -0.0, subnormals, MaxFloat64; empty, long "
+                "compressible, random, 20 KB and unicode strings; boolean patterns; null patterns through partial field sets; 1-3 segments per column). Half of the cases run "
+                "write -> WAL -> (replay) -> flush -> compaction/merge -> read with reads after every op compared bit for bit with the model; the other half cut every "
+                "selected WAL record at its prefixes (all prefixes up to 512 B in the thorough tier; header boundaries + seeded offsets in quick) and require recovery to "
+                "yield exactly the acknowledged prefix. evaluations = live runs + crash states.",
+        "eval_extra": ["crash_states"], "probes": ["out-of-order file present", "compacted file (level>0) present"],
+        "assumptions": _CRASH_ASSUME[:1] + ["integers inside +-2^53 (larger ones belong to C06)", "encoder modes reached are those the generated columns select; not measured per block"],
+        "quick": {"runs": 500, "budget_s": 150, "workers": 14},
+        "thorough": {"runs": 8000, "budget_s": 2400, "workers": 16},
+    },
+    "C09": {
+        "world": "S", "level": "exploration",
+        "rule": "C02-style histories (memtable + ordered + out-of-order + compacted + merged files, partial field sets -> nulls, multi-segment chunks); after every operation "
+                "seeded pairs (aggregate, plain select) over the same field, filter, time range (ends inside / on the edge of / outside segments and files) and grouping "
+                "(all tags, host only, epoch-aligned time bucket), asc/desc, functions count sum min max first last on all field types they apply to, in the forms bare "
+                "(pre-aggregation shortcut eligible), exact-statistics hint, time bucket, field filter. Oracle: aggregate = function over the rows the engine's own plain "
+                "select returns. The bare form is skipped when a (series,timestamp) in range was written in more than one flush generation (the statement's exclusion). "
+                "evaluations = runs + compared pairs. mean is sum/count and not queried separately.",
+        "eval_extra": ["agg_pairs"], "probes": ["out-of-order file present", "compacted file (level>0) present"],
+        "assumptions": ["aggregates are executed the way the repository's own tests do: CreateCursor + ChunkReader with call reader-ops (series plan nil) + StreamAggregateTransform; the sql-side planner is not in the loop",
+                        "1 WAL partition (C01's defect kept out)", "float sums compared with 1e-9 relative tolerance; generated floats are multiples of 1/8"],
+        "quick": {"runs": 1500, "budget_s": 150, "workers": 14},
+        "thorough": {"runs": 40000, "budget_s": 1800, "workers": 16},
     },
 }
